@@ -172,11 +172,7 @@ func (in *Interp) opaqueMethod(op *Opaque, name string, pos token.Pos) Value {
 			return mk(func(in *Interp, a []Value, pos token.Pos) Value { return in.kvGet(kv, a[1].(Slice).V, pos) })
 		case "Has":
 			return mk(func(in *Interp, a []Value, pos token.Pos) Value {
-				i := in.kvFind(kv, a[1].(Slice).V)
-				if i < 0 {
-					return False
-				}
-				return kv.cells[i].presentT()
+				return in.kvHas(kv, a[1].(Slice).V)
 			})
 		case "Set":
 			return mk(func(in *Interp, a []Value, pos token.Pos) Value {
@@ -340,7 +336,8 @@ func init() {
 		ncd.W = nw
 		parent := cd.W
 		write := &BoundIntrinsic{Recv: nil, Name: "writeCache", Fn: func(in *Interp, a []Value, pos token.Pos) Value {
-			nw.commitTo(parent)
+			in.noSpec("cache-context write")
+			in.commitWorld(nw, parent)
 			return nil
 		}}
 		return tup(ctxVal(&ncd), write)
